@@ -96,6 +96,7 @@ def _ctx(scn, idx):
         sig['open_kinds'] = sorted(set(sid_kind.get((e['ep'], s), '?') for s in e.get('streams', [])))
         # how each still-registered stream came to be considered terminated: a CANCEL or ERROR was seen on it, or it just completed
         reasons = set()
+        retained = set()
         for s in e.get('streams', []):
             mine = [x for x in ev[:idx] if x['ep'] == e['ep'] and x['sid'] == s and x['ev'] in ('enq', 'rx')]
             seen = set(x['ft'] for x in mine)
@@ -106,11 +107,15 @@ def _ctx(scn, idx):
                 x['ev'] == 'rx' and x['ft'].startswith('REQUEST_') and x['ft'] != 'REQUEST_N' for x in mine)
             if 'CANCEL' in seen:
                 reasons.add('cancel')
+                retained.add(kind)
             elif 'ERROR' in seen:
                 reasons.add('error')
+                retained.add(kind)
             elif own_c and peer_c:
                 reasons.add('complete')
+                retained.add(kind)
         sig['open_reasons'] = sorted(reasons)
+        sig['retained_kinds'] = sorted(retained)     # kinds of the still-registered streams that did terminate
         # did the library itself cancel the local producer of a still-registered stream although no CANCEL arrived on it?
         # (then that direction can never complete: different from a stream retained while the application is still sending)
         stuck = False
